@@ -169,10 +169,15 @@ def run(chk):
         vol = P.atom(("call", P.atom(("attr", P.atom(("attr", P.name("self"), "unit_cell")), "volume")), ()))
         okr = bool(mass) and ret == mass[0].value / vol / P.const(Fraction("0.6022"))
         chk.ob("R13.5", CR, "Crystal.density", "density = mass / volume / 0.6022 (g/cm^3 from amu/A^3)", okr, found=str(ret)[:160])
-    chk.rule("R13.8", "the unit-cell contents that P1 / supercell / translational re-expressions copy are the distinct sites of the cell: wrap before merge, periodic and distance-based coincidence, occupancy-conserving merge (= C01 R01.3, R01.4)", 4)
+    chk.rule("R13.8", "the unit-cell contents that P1 / supercell / translational re-expressions copy are the distinct sites of the cell: wrap before merge, periodic and distance-based coincidence, aligned per-atom columns, occupancy-conserving merge (= C01 R01.2, R01.3, R01.4)", 4)
     if chk.want("R13.8"):
         from ..inherit import inherit
-        inherit(chk, "R13.8", "c01", ["R01.3", "R01.4"])
+        inherit(chk, "R13.8", "c01", ["R01.2", "R01.3", "R01.4"])
+    chk.rule("R13.10", "the molecules the P1 / supercell expansions copy pair every per-atom array with the same atoms: one index chain for "
+                       "elements, positions, parent indices, labels and generator codes (= C04 R04.2)", 6)
+    if chk.want("R13.10"):
+        from ..inherit import inherit
+        inherit(chk, "R13.10", "c04", ["R04.2"])
     chk.assume("coincidence of atoms between the two descriptions (geometry) is not decided")
     chk.rule("R13.7", "a cell built from vectors keeps them: direct is the given matrix, inverse its numerical inverse, and coordinates are converted "
                       "with those matrices (= C12 R12.3, R12.5); the trigonal switch and the frame argument of R13.4 rest on it", 8)
